@@ -45,20 +45,22 @@ func c17Genesis() harness.Genesis {
 		VestingTypes: []vtypes.GenesisVestingType{{Name: "t", LockupPeriod: 0, LockupPeriodUnit: "second", VestingPeriod: 60, VestingPeriodUnit: "second", Free: sdk.NewDecWithPrec(5, 1)}},
 		AccountVestingPools: []*vtypes.AccountVestingPools{{Owner: harness.AddrS("A"), VestingPools: []*vtypes.VestingPool{
 			{Name: "g", VestingType: "t", LockStart: harness.T0, LockEnd: harness.T0.Add(50 * time.Second), InitiallyLocked: sdk.NewInt(40), Withdrawn: sdk.ZeroInt(), Sent: sdk.ZeroInt(), GenesisPool: true},
-			{Name: "o", VestingType: "t", LockStart: harness.T0, LockEnd: harness.T0.Add(50 * time.Second), InitiallyLocked: sdk.NewInt(40), Withdrawn: sdk.ZeroInt(), Sent: sdk.ZeroInt(), GenesisPool: false}}}},
+			{Name: "o", VestingType: "t", LockStart: harness.T0, LockEnd: harness.T0.Add(50 * time.Second), InitiallyLocked: sdk.NewInt(40), Withdrawn: sdk.ZeroInt(), Sent: sdk.ZeroInt(), GenesisPool: false},
+			// a genesis pool that comes after an ordinary pool of the same owner
+			{Name: "g2", VestingType: "t", LockStart: harness.T0, LockEnd: harness.T0.Add(50 * time.Second), InitiallyLocked: sdk.NewInt(40), Withdrawn: sdk.ZeroInt(), Sent: sdk.ZeroInt(), GenesisPool: true}}}},
 		VestingAccountTraces: []vtypes.VestingAccountTrace{
 			{Id: 0, Address: harness.AddrS("GA"), Genesis: true},
 			{Id: 1, Address: harness.AddrS("NA")},
 		},
 		VestingAccountTraceCount: 2,
 	}
-	g.ExtraBal = append(g.ExtraBal, banktypes.Balance{Address: harness.ModAddr(vtypes.ModuleName).String(), Coins: coins(80)})
+	g.ExtraBal = append(g.ExtraBal, banktypes.Balance{Address: harness.ModAddr(vtypes.ModuleName).String(), Coins: coins(120)})
 	return g
 }
 
 func c17Events(thorough bool) []Ev {
 	evs := []Ev{{Name: "block+1s", Block: time.Second}, {Name: "block+20s", Block: 20 * time.Second}, {Name: "block+40s", Block: 40 * time.Second}}
-	for _, pool := range []string{"g", "o"} {
+	for _, pool := range []string{"g", "o", "g2"} {
 		pool := pool
 		evs = append(evs, Ev{Name: "send(A." + pool + ",8->fresh)", Build: func(v View) (sdk.Msg, string) {
 			_, to := freshAddr(v)
@@ -119,7 +121,7 @@ func c17Step(si *StepInfo) (interface{}, []*explore.Violation) {
 	n := l.clone()
 	switch m := si.Msg.(type) {
 	case *vtypes.MsgSendToVestingAccount:
-		n[m.ToAddress] = m.VestingPoolName == "g"
+		n[m.ToAddress] = m.VestingPoolName == "g" || m.VestingPoolName == "g2"
 	case *vtypes.MsgSplitVesting:
 		if d, traced := l[m.FromAddress]; traced {
 			n[m.ToAddress] = d
